@@ -34,6 +34,8 @@ func main() {
 		os.Exit(cmdRecord(os.Args[2:]))
 	case "optable":
 		os.Exit(cmdOptable(os.Args[2:]))
+	case "hammer":
+		os.Exit(cmdHammer(os.Args[2:]))
 	default:
 		fmt.Fprintln(os.Stderr, "unknown subcommand", os.Args[1])
 		os.Exit(2)
